@@ -334,6 +334,7 @@ func goroutineJoined(sp writerSpawn) string {
 	}
 	// channels signalled by the goroutine at its end: close(ch) / send in a deferred call or as the last effect
 	signalled := map[ssa.Value]bool{}
+	signalledField := map[string]bool{}
 	addSig := func(fn *ssa.Function, bindings map[*ssa.FreeVar]ssa.Value) {
 		for _, f := range an.WithClosures(fn) {
 			for _, b := range f.Blocks {
@@ -363,6 +364,9 @@ func goroutineJoined(sp writerSpawn) string {
 					}
 					signalled[an.RootAlloc(ch)] = true
 					signalled[ch] = true
+					if fa, ok := ch.(*ssa.FieldAddr); ok {
+						signalledField[fa.X.Type().String()+"."+fieldNameOf(fa)] = true // a channel kept in a field of the connection
+					}
 				}
 			}
 		}
@@ -402,7 +406,11 @@ func goroutineJoined(sp writerSpawn) string {
 				if fv, ok := ch.(*ssa.FreeVar); ok && dbind[fv] != nil {
 					ch = dbind[fv]
 				}
-				if signalled[ch] || signalled[an.RootAlloc(ch)] {
+				viaField := false
+				if fa, ok := ch.(*ssa.FieldAddr); ok && signalledField[fa.X.Type().String()+"."+fieldNameOf(fa)] {
+					viaField = true
+				}
+				if signalled[ch] || signalled[an.RootAlloc(ch)] || viaField {
 					// the wait must be unconditional in the function
 					if bb == cl.Blocks[0] || len(cl.Blocks) == 1 || bb.Dominates(cl.Blocks[len(cl.Blocks)-1]) {
 						return true
